@@ -1,0 +1,5 @@
+//go:build !verif
+
+package limiter
+
+func verifPoint(name string) {}
